@@ -8,6 +8,7 @@ package tmpl
 
 import (
 	"fmt"
+	"regexp"
 	"go/ast"
 	"go/types"
 	"sort"
@@ -111,6 +112,9 @@ type Evaluator struct {
 	Instantiations map[string]bool
 	FuncUses map[string]int
 	stack    []string
+	rootName string
+	// Qualifiers: root -> package qualifier -> first use position; Imports: root -> names imported by the root's import block
+	Qualifiers map[string]map[string]string
 }
 
 func NewEvaluator(f *Forest, gen *packages.Package, sprigNames map[string]bool) *Evaluator {
@@ -328,6 +332,8 @@ func (e *env) get(n string) (Val, bool) {
 // Root evaluates a root template with the given dot type in Go code context.
 func (ev *Evaluator) Root(name string, dot types.Type) {
 	ev.stack = nil
+	ev.rootName = name
+	defer func() { ev.rootName = "" }()
 	ev.call(name, Val{T: dot}, []string{LCode}, nil, 0)
 }
 
@@ -380,6 +386,9 @@ func (ev *Evaluator) walkList(e *env, l *parse.ListNode, dot Val, st []string) [
 func (ev *Evaluator) walk(e *env, n parse.Node, dot Val, st []string) []string {
 	switch x := n.(type) {
 	case *parse.TextNode:
+		if ev.rootName != "" && len(st) == 1 && (st[0] == LCode) {
+			ev.noteQualifiers(e.t, x)
+		}
 		for _, s0 := range st {
 			for _, mk := range MarkersInComments(s0, string(x.Text)) {
 				ev.CommentedCode = append(ev.CommentedCode, CommentedCode{Tree: e.t, Pos: x.Pos, Marker: mk, Entry: s0, Inst: e.inst})
@@ -818,4 +827,51 @@ func ownerOf(bt types.Type, f *types.Var) string {
 		found = namedOf(bt)
 	}
 	return found
+}
+
+
+var qualRx = regexp.MustCompile(`(^|[^A-Za-z0-9_.\])}])([a-z][a-z0-9]*)\.[A-Z][A-Za-z0-9_]*`)
+
+// noteQualifiers records package-qualifier-looking tokens (pkg.Exported) of a code-state
+// text node, skipping string and comment content.
+func (ev *Evaluator) noteQualifiers(t *Tree, x *parse.TextNode) {
+	if ev.Qualifiers == nil {
+		ev.Qualifiers = map[string]map[string]string{}
+	}
+	m := ev.Qualifiers[ev.rootName]
+	if m == nil {
+		m = map[string]string{}
+		ev.Qualifiers[ev.rootName] = m
+	}
+	txt := string(x.Text)
+	// blank out comments and string literals
+	var b strings.Builder
+	state := LCode
+	for i := 0; i < len(txt); i++ {
+		prev := state
+		state = lex1(state, txt[i:i+1])
+		// two-character openers need lookahead: recompute from a window
+		if prev == LCode && txt[i] == '/' && i+1 < len(txt) && (txt[i+1] == '/' || txt[i+1] == '*') {
+			state = lex1(LCode, txt[i:i+2])
+			b.WriteString("  ")
+			i++
+			continue
+		}
+		if prev == LBlock && txt[i] == '*' && i+1 < len(txt) && txt[i+1] == '/' {
+			state = LCode
+			b.WriteString("  ")
+			i++
+			continue
+		}
+		if prev == LCode && state == LCode {
+			b.WriteByte(txt[i])
+		} else {
+			b.WriteByte(' ')
+		}
+	}
+	for _, mm := range qualRx.FindAllStringSubmatch(b.String(), -1) {
+		if _, ok := m[mm[2]]; !ok {
+			m[mm[2]] = t.PosStr(x.Pos)
+		}
+	}
 }
